@@ -20,7 +20,7 @@ from .. import units as U
 from ..bufflow import Sym
 from ..geometry import ShapeFlow
 from .. import permcheck
-from .C01 import flow_check, normal_view, unit_view, has_call, ModView, engine, xsrc
+from .C01 import flow_check, normal_view, unit_view, has_call, ModView, engine, xsrc, canonical_steps
 
 CLS = "LayoutSwapper"
 STEP = ("LayoutSwapper._transpose", "LayoutSwapper._transpose_source_intact")
@@ -33,7 +33,7 @@ def view_of(chk, mod, q):
     if key not in cache:
         cls = q.split(".")[0]
         want = has_call("Allgather", "Gather", "Allgatherv", "allgather", "gather") if q in STEP else None
-        v = unit_view(mod, cls, q, want=want, normal=True)
+        v = unit_view(canonical_steps(mod, cls), cls, q, want=want, normal=True)
         conv = getaxes_convention(mod)
         if conv is not None and conv != (0, 1, 0, 1):
             _canonical_getaxes_calls(v, conv)
@@ -108,6 +108,25 @@ def _layout_of_handler_expr(e, fn_env, handler_of):
     return None
 
 
+def _current_manager_dependent(mod, e):
+    """text of the part of an expression that reads the swapper's current manager (directly, or through a property of the swapper
+    whose getter reads it), else None"""
+    for n in ast.walk(e):
+        if isinstance(n, ast.Attribute) and isinstance(n.value, ast.Name) and n.value.id == "self":
+            if n.attr == "_current_manager":
+                return "`self._current_manager`"
+            qp = f"{CLS}.{n.attr}"
+            if mod.has(qp):
+                try:
+                    g = mod.func(qp)
+                except Exception:
+                    continue
+                if any(src(d) == "property" for d in g.decorator_list) and \
+                        any(isinstance(x, ast.Attribute) and src(x) == "self._current_manager" for x in ast.walk(g)):
+                    return f"`self.{n.attr}` (a property that answers for `self._current_manager`)"
+    return None
+
+
 def axes_ownership(chk, mod, q):
     rel = mod.rel
     fn = view_of(chk, mod, q)
@@ -133,6 +152,46 @@ def axes_ownership(chk, mod, q):
             L = _layout_of_handler_expr(n.value.value, None, handler_of)
             if L:
                 nd_of[n.targets[0].id] = L
+    # the arm (local copy / scatter / gather) is selected from the two ARGUMENTS: a count read from the swapper's current manager is
+    # state left by the previous transpose, not a property of the layout the caller passes
+    stale = {}
+    for n in ast.walk(fn):
+        if isinstance(n, ast.Assign) and len(n.targets) == 1 and isinstance(n.targets[0], ast.Name) and n.targets[0].id not in nd_of:
+            dep = _current_manager_dependent(mod, n.value)
+            if dep:
+                stale[n.targets[0].id] = (n, dep)
+    if q in STEP:
+        sel = []
+        for n in ast.walk(fn):
+            if isinstance(n, ast.If) and isinstance(n.test, ast.Compare) and len(n.test.ops) == 1:
+                sides = [n.test.left, n.test.comparators[0]]
+                kinds = []
+                for x in sides:
+                    if isinstance(x, ast.Name) and x.id in nd_of:
+                        kinds.append(("arg", nd_of[x.id], x.id))
+                    elif isinstance(x, ast.Name) and x.id in stale:
+                        kinds.append(("state", stale[x.id][1], x.id))
+                    elif _current_manager_dependent(mod, x):
+                        kinds.append(("state", _current_manager_dependent(mod, x), src(x)))
+                    else:
+                        kinds.append(None)
+                if all(kinds) :
+                    sel.append((n, kinds))
+        for n, kinds in sel:
+            st_ = [k for k in kinds if k[0] == "state"]
+            if st_:
+                other = [k for k in kinds if k[0] == "arg"]
+                chk.ob("M2-arm-selection", n, "if " + src(n.test)[:80], False,
+                       f"the arm is selected by comparing `{st_[0][2]}` = {st_[0][1]} with the count of "
+                       f"{'`' + other[0][1] + '`' + chr(39) + 's handler' if other else 'the other side'}: that is the number of distributed directions of the "
+                       "swapper's CURRENT manager (set by the previous transpose), not of the handler that owns `layout_source`/`layout_dest`. The "
+                       "caller may pass any valid copy as the source (a transpose with a spare buffer leaves the source intact; Grid restores a "
+                       "saved copy): when its group differs from the current manager's the wrong arm (local copy instead of scatter/gather) runs "
+                       "and the move fails or mis-shapes the data", file=rel, func=q)
+            else:
+                chk.ob("M2-arm-selection", n, "if " + src(n.test)[:80], {k[1] for k in kinds} == {"layout_source", "layout_dest"} or None,
+                       "the arm is selected by comparing the numbers of distributed directions of the handlers owning the two layouts passed in",
+                       file=rel, func=q)
     n_calls = 0
     for call in [c for c in ast.walk(fn) if isinstance(c, ast.Call) and isinstance(c.func, ast.Attribute)
                  and c.func.attr == "getAxes"]:
@@ -157,9 +216,9 @@ def axes_ownership(chk, mod, q):
                 if a in nd_of and b in nd_of:
                     facts.append((type(test.ops[0]).__name__, nd_of[a], nd_of[b], pol))
         for op, a, b, pol in facts:
-            if op == "Gt" and pol:
+            if (op == "Gt" and pol) or (op == "LtE" and not pol):
                 larger = a
-            elif op == "Lt" and pol:
+            elif (op == "Lt" and pol) or (op == "GtE" and not pol):
                 larger = b
         if larger is None:
             neq = [(a, b) for op, a, b, pol in facts if (op == "Eq" and not pol) or (op == "NotEq" and pol)]
@@ -357,6 +416,7 @@ class SymArm:
         self.stores = []          # (stmt, target value, rhs value, loop info or None)
         self.loop = None          # (trip count, node) while inside the unpack loop
         self.conds = []           # `if` statements met inside the arm
+        self.path_vals = []       # (comparison, polarity assumed, value of the left side, value of the right side) of the resolved tests
         self.notes = []
 
     # -------------------------------------------------------------- scalars
@@ -546,6 +606,15 @@ class SymArm:
     def stmt(self, st):
         sp = self.sp
         if isinstance(st, ast.Expr) and isinstance(st.value, ast.Constant):
+            return
+        if getattr(st, "_path_test", None) is not None:
+            test, pol = st._path_test
+            for c_ in ast.walk(test):
+                if isinstance(c_, ast.Compare) and len(c_.ops) == 1:
+                    try:
+                        self.path_vals.append((c_, pol, self.sval(c_.left), self.sval(c_.comparators[0])))
+                    except Unknown:
+                        pass
             return
         if isinstance(st, (ast.Assert, ast.Pass)):
             return
@@ -840,6 +909,13 @@ def _read_arm(fn, node):
     return A
 
 
+def _path_marker(test, pol):
+    """pseudo-statement standing where an `if` was resolved: the symbolic reader evaluates the two sides of its comparisons there"""
+    m = ast.Pass()
+    m._path_test = (test, pol)
+    return m
+
+
 def _linear_paths(stmts, limit=6):
     """the statement list with its top-level `if` statements resolved one way or the other: [([(test, polarity)], [statements])];
     None when there would be more than `limit` paths"""
@@ -854,7 +930,7 @@ def _linear_paths(stmts, limit=6):
                     if sub is None:
                         return None
                     for c2, s2 in sub:
-                        new.append((conds + [(st.test, pol)] + c2, done + s2))
+                        new.append((conds + [(st.test, pol)] + c2, done + [_path_marker(st.test, pol)] + s2))
             paths = new
             if len(paths) > limit:
                 return None
@@ -877,6 +953,62 @@ def _read_arm_paths(fn, node):
         A = SymArm(fn)
         A.run(prefix)
         A.conds, A.notes, A.stores, A.gathers = [], [], [], []
+        A.run(stmts)
+        A.path = conds
+        out.append(A)
+    return out
+
+
+def _function_paths(stmts, limit=48):
+    """every way through a statement list with its `if` statements resolved one way or the other and cut at a `return`/`raise`:
+    [(conditions, statements, ended)]; None when there are more than `limit` ways (loops are kept as single statements)"""
+    paths = [([], [], False)]
+    for st in stmts:
+        live = [p_ for p_ in paths if not p_[2]]
+        done = [p_ for p_ in paths if p_[2]]
+        if not live:
+            break
+        if isinstance(st, ast.If):
+            new = []
+            for pol, body in ((True, st.body), (False, st.orelse)):
+                sub = _function_paths(body, limit)
+                if sub is None:
+                    return None
+                for conds, sofar, _ in live:
+                    for c2, s2, e2 in sub:
+                        new.append((conds + [(st.test, pol)] + c2, sofar + s2, e2))
+            paths = done + new
+            if len(paths) > limit:
+                return None
+        elif isinstance(st, (ast.Return, ast.Raise)):
+            paths = done + [(c, s_ + [st], True) for c, s_, _ in live]
+        else:
+            paths = done + [(c, s_ + [st], False) for c, s_, _ in live]
+    return paths
+
+
+def _consistent(conds):
+    """no test is assumed both true and false along the path"""
+    seen = {}
+    for t, pol in conds:
+        k = src(t)
+        if seen.setdefault(k, pol) != pol:
+            return False
+    return True
+
+
+def _read_paths_through(fn, node):
+    """one SymArm per way through the function that executes the statement containing `node` (A.path = the tests assumed), or None"""
+    paths = _function_paths(fn.body)
+    if paths is None:
+        return None
+    out = []
+    for conds, stmts, _ in paths:
+        if not _consistent(conds):
+            continue
+        if not any(any(x is node for x in ast.walk(st)) for st in stmts):
+            continue
+        A = SymArm(fn)
         A.run(stmts)
         A.path = conds
         out.append(A)
@@ -947,6 +1079,13 @@ def _whole_buffer_views(A, recv_name, out):
     return found
 
 
+def _rank_local(text):
+    """does a symbolic value depend on this rank's own block (its local shape/size) rather than on the partition as a whole?"""
+    import re
+    t = text.replace(" ", "")
+    return bool(re.search(r"layout_source\.size|layout_source\.shape\[|prod\(shape\(layout_source\)\)|layout_source\.ends|layout_source\.starts", t))
+
+
 def _judge_gather_path(A, recv_name, out):
     """(diagnoses, things not followed) of one way through the gather arm"""
     import sympy
@@ -964,6 +1103,10 @@ def _judge_gather_path(A, recv_name, out):
     true_shape = SL("layout_source", "shape", {"idx_s": len_i})
     n_i = at("prod(" + repr(true_shape) + ")")
     call, specs, comm = A.gathers[0]
+    if recv_name == "buf" and len(specs) > 1 and isinstance(specs[1][0], Buf) and specs[1][0].root == "dest":
+        # with a spare buffer the two arrays other than the source may play either role: received in one, assembled in the other (that
+        # the result ends in `dest` and the source stays intact is decided by the field-location flow, D1/D2)
+        recv_name, out = "dest", "buf"
     # ---- communicator
     if comm is None:
         und.append("communicator of the gather")
@@ -1010,6 +1153,17 @@ def _judge_gather_path(A, recv_name, out):
             bad.append(f"`{src(cmp_[0])}` compares this rank's own block length with the padded length to decide how the gathered buffer is "
                        "read: on an uneven distribution the ranks holding a full-size block take the 'no padding' path although the shorter "
                        "blocks of the other ranks arrive padded - the padding is read as data, and the ranks disagree on the result")
+    for c_, pol, va, vb in getattr(A, "path_vals", []):
+        if getattr(c_, "lineno", 0) <= getattr(call, "lineno", 0):
+            continue          # before the exchange: it cannot decide how the received buffer is read
+        ta, tb = str(va), str(vb)
+        for own, padded in ((ta, tb), (tb, ta)):
+            if "max_block_shape" in padded and "max_block_shape" not in own and _rank_local(own) \
+                    and not any("compares this rank's own block" in b_ for b_ in bad):
+                bad.append(f"`{src(c_)}` compares this rank's own block size (`{own}`) with the padded size (`{padded}`) to decide how the gathered "
+                           "buffer is read: the test is rank-local - on an uneven distribution it is true on every rank that holds a largest "
+                           "block although the shorter blocks of the other ranks of the communicator arrive padded; those ranks read the padding "
+                           "as data (misaligned buffer) while the others take the per-block path: the replicas differ")
     for cnd in A.conds:
         cmp_ = [x for x in ast.walk(cnd.test) if isinstance(x, ast.Compare) and "max_block_shape" in src(x) and
                 (".shape" in src(x) or "mpi_lengths" in src(x))]
@@ -1139,11 +1293,28 @@ def scatter_geometry(chk, mod, q):
                f"{len(calls)} calls `self.getAxes(layout_source, layout_dest)` found in {q} (1 expected): the scatter arm could not be isolated",
                file=rel, func=q)
         return
-    A = _read_arm(fn, calls[0])
-    bad, und = [], []
-    if A is None:
+    arms = _read_paths_through(fn, calls[0])
+    if not arms:
+        A = _read_arm(fn, calls[0])
+        arms = [A] if A is not None else []
+    if not arms:
         chk.ob(rule, fn, "scatter arm of " + q.split(".")[-1], None, "the scatter arm could not be isolated", file=rel, func=q)
         return
+    bad, und = [], []
+    for A in arms:
+        b_, u_ = _judge_scatter_path(A)
+        where = _path_text(A) if len(arms) > 1 else ""
+        bad += [(f"when {where}: " if where else "") + x for x in b_]
+        und += [(f"when {where}: " if where else "") + x for x in u_]
+    ok = not bad and not und
+    o = chk.pat(rule, calls[0], "scatter arm of " + q.split(".")[-1], ok, what, "; ".join(dict.fromkeys(bad)) or None, file=rel, func=q)
+    if not ok and not bad:
+        o.msg = "the scatter arm could not be read completely: " + "; ".join(dict.fromkeys(und))[:600]
+
+
+def _judge_scatter_path(A):
+    """(diagnoses, things not followed) of one way through the function that takes the scatter arm"""
+    bad, und = [], []
     at = A.atom
     comm_t = "self._managers[self._handlers[layout_dest.name]].communicators[idx_d]"
     rank = at(comm_t + ".Get_rank()")
@@ -1189,10 +1360,7 @@ def scatter_geometry(chk, mod, q):
                     und.append(f"slice `{sv}` (expected slice({st_r}, {st_r} + {len_r}))")
         else:
             und.append("value stored by the scatter arm" + ("; " + "; ".join(A.notes[:3]) if A.notes else ""))
-    ok = not bad and not und
-    o = chk.pat(rule, calls[0], "scatter arm of " + q.split(".")[-1], ok, what, "; ".join(dict.fromkeys(bad)) or None, file=rel, func=q)
-    if not ok and not bad:
-        o.msg = "the scatter arm could not be read completely: " + "; ".join(dict.fromkeys(und))[:600]
+    return bad, und
 
 
 # ------------------------------------------------------------------ buffer sizes
@@ -1220,9 +1388,12 @@ def handler_buffer(chk, mod):
         pair_loops = loops(calls[0])
         if len(inits) == 1 and isinstance(inits[0].value, ast.Call) and src(inits[0].value.func) == "list" and len(inits[0].value.args) == 1 \
                 and isinstance(inits[0].value.args[0], ast.Attribute) and inits[0].value.args[0].attr == "shape":
-            if len(loops(inits[0])) == len(pair_loops) and all(len(loops(p_)) == len(pair_loops) for p_ in pads) and len(pair_loops) >= 2:
+            def same(a, b):
+                return len(a) == len(b) and all(x is y for x, y in zip(a, b))
+            # the list is created in the very loop iteration (over the connected pairs, however they are enumerated) that pads it
+            if pair_loops and same(loops(inits[0]), pair_loops) and all(same(loops(p_), pair_loops) for p_ in pads):
                 ok = True
-            elif len(loops(inits[0])) < len(pair_loops):
+            elif len(loops(inits[0])) < len(pair_loops) and all(any(x is y for y in pair_loops) for x in loops(inits[0])):
                 bad = (f"`{src(inits[0])}` (line {inits[0].lineno}) is created outside the loop over connected layouts but its entries are "
                        "overwritten for every pair: a layout connected to two others through different axes keeps the padded extent "
                        "of the previous pair, and bufferSize can come out smaller than a block the transposes move")
@@ -1470,11 +1641,12 @@ def run(chk):
     scatter_geometry(chk, mod, "LayoutSwapper._transpose")
     scatter_geometry(chk, mod, "LayoutSwapper._transpose_source_intact")
     init_buffer(chk, mod)
+    coords_follow_comms(chk, mod)
     from .C01 import payload_dtype
     payload_dtype(chk, mod, CLS)
     views = ModView(mod, {q: view_of(chk, mod, q) for q in STEP})
-    engine(chk, "P1-transpose-permutation", mod.func(STEP[0]), "permutation typing of the swapper's array stores",
-           permcheck.check_layout_swapper, chk, views, file=U.LAYOUT, func=STEP[0])
+    engine(chk, "P1-transpose-permutation", views.func(STEP[0]), "permutation typing of the swapper's array stores",
+           swapper_permutations, chk, views, file=U.LAYOUT, func=STEP[0])
     # the cached route map is only read by the transposes
     from .. import lints
     for q in (f"{CLS}.transpose", f"{CLS}._transposeRedirect", f"{CLS}._transposeRedirect_source_intact"):
@@ -1500,7 +1672,190 @@ def run(chk):
     chk.floor("M1-current-manager", 14)
     chk.floor("A1-index-ownership", 16)
     chk.floor("A1-getaxes-role-order", 6)
-    chk.floor("P1-", 6)
+    chk.floor("P1-", 4)
+
+
+def swapper_permutations(chk, views):
+    """permutation-word typing of every array store of the two single-step routines (engine P).  Each routine has at least one typed
+    store on the local/scatter side and one in the gather arm, however its arms are arranged (the local and the scatter arm may share
+    one store)"""
+    from ..core import AnalysisError
+    total = 0
+    for q in STEP:
+        pf = permcheck.PermFlow(chk, views.rel, q, views.func(q), {})
+        chk.functions.add(f"{views.rel}:{q}")
+        if pf.count < 2:
+            raise AnalysisError(f"P1: only {pf.count} typed array store(s) found in {q} (expected one for the local/scatter copy and one "
+                                "for the gather at least)")
+        total += pf.count
+    return total
+
+
+# ------------------------------------------------------------------ communicators and coordinates handed to a handler go together
+def _seq_desc(fn, e, at, depth=4):
+    """how a list handed to a constructor was put together from a per-axis base list: ("whole", base) / ("prefix", base, slice text) /
+    ("sel", base, key, index text, node) = the elements base[a] for the a of one sequence of axes (key names that sequence: the loop
+    whose body appends them, or the sequence a comprehension runs over); None when not followed"""
+    from .C01 import reaching_def, loops_around
+    if depth <= 0:
+        return None
+    if isinstance(e, ast.Call) and src(e.func) in ("list", "tuple") and len(e.args) == 1 and not e.keywords:
+        return _seq_desc(fn, e.args[0], at, depth - 1)
+    if isinstance(e, ast.Call) and isinstance(e.func, ast.Attribute) and e.func.attr == "copy" and not e.args:
+        return _seq_desc(fn, e.func.value, at, depth - 1)
+    if isinstance(e, ast.Subscript) and isinstance(e.slice, ast.Slice) and isinstance(e.value, ast.Name):
+        inner = _seq_desc(fn, e.value, at, depth - 1)
+        if inner is not None and inner[0] == "whole":
+            return ("prefix", inner[1], src(e.slice))
+        return None
+    if isinstance(e, (ast.ListComp, ast.GeneratorExp)) and len(e.generators) == 1 and not e.generators[0].ifs:
+        g = e.generators[0]
+        if isinstance(e.elt, ast.Subscript) and isinstance(e.elt.value, ast.Name) and isinstance(g.target, ast.Name) \
+                and isinstance(e.elt.slice, ast.Name) and e.elt.slice.id == g.target.id:
+            it = g.iter
+            if isinstance(it, ast.Call) and src(it.func) in ("list", "tuple", "sorted", "iter") and len(it.args) == 1:
+                it = it.args[0] if src(it.func) != "sorted" else it
+            if isinstance(it, ast.Call) and isinstance(it.func, ast.Attribute) and it.func.attr == "keys" and not it.args:
+                it = it.func.value
+            d = reaching_def(fn, it.id, at) if isinstance(it, ast.Name) else None
+            key = ("seq", src(it), id(d) if d is not None else None)
+            return ("sel", e.elt.value.id, key, src(it), e)
+        return None
+    if isinstance(e, ast.Name):
+        d = reaching_def(fn, e.id, at)
+        if d is None:
+            return ("whole", e.id)
+        v = d.value
+        empty = (isinstance(v, (ast.List, ast.Tuple)) and not v.elts) or (isinstance(v, ast.Call) and src(v.func) == "list" and not v.args)
+        if not empty:
+            if isinstance(v, ast.Call) and not (src(v.func) in ("list", "tuple") or (isinstance(v.func, ast.Attribute) and v.func.attr == "copy")):
+                return ("whole", e.id)          # produced by a call (Get_coords, ...): a base list
+            return _seq_desc(fn, v, d, depth - 1)
+        adds = [c for c in ast.walk(fn) if isinstance(c, ast.Call) and isinstance(c.func, ast.Attribute) and src(c.func.value) == e.id
+                and c.func.attr in ("append", "extend", "insert") and d.lineno < c.lineno <= getattr(at, "lineno", 10 ** 9)]
+        if len(adds) != 1 or adds[0].func.attr != "append" or len(adds[0].args) != 1:
+            return None
+        el = adds[0].args[0]
+        lp = loops_around(fn, adds[0])
+        st = adds[0]
+        while not isinstance(st, ast.stmt):
+            st = parent(st)
+        if not lp or not any(st is b_ for b_ in lp[0].body):
+            return None
+        if isinstance(el, ast.Subscript) and isinstance(el.value, ast.Name) and not isinstance(el.slice, ast.Slice):
+            return ("sel", el.value.id, ("loop", id(lp[0]), src(el.slice)), src(el.slice), st)
+        if isinstance(el, ast.Call):
+            return ("whole", e.id)          # one freshly produced item per iteration (topology.Sub(...)): a base list
+        return ("built", e.id, src(el))
+    return None
+
+
+def _distinct_names(fn, a, b, at):
+    """two index expressions that are different plain local names, neither defined as the other (so they can denote different axes)"""
+    from .C01 import reaching_def
+    import re
+    if not (re.fullmatch(r"\w+", a) and re.fullmatch(r"\w+", b)) or a == b:
+        return False
+    for x, y in ((a, b), (b, a)):
+        d = reaching_def(fn, x, at)
+        if d is not None and any(isinstance(n, ast.Name) and n.id == y for n in ast.walk(d.value)):
+            return False
+    return True
+
+
+def _base_role(fn, name):
+    """'comm' for a list of the sub-communicators of a cartesian topology (its elements come from `.Sub(...)`), 'coord' for the
+    coordinates of this process on that topology (`.Get_coords(...)`), else None"""
+    for n in ast.walk(fn):
+        if isinstance(n, ast.Assign) and len(n.targets) == 1 and isinstance(n.targets[0], ast.Name) and n.targets[0].id == name:
+            if any(isinstance(c, ast.Call) and isinstance(c.func, ast.Attribute) and c.func.attr == "Get_coords" for c in ast.walk(n.value)):
+                return "coord"
+            if any(isinstance(c, ast.Call) and isinstance(c.func, ast.Attribute) and c.func.attr == "Sub" for c in ast.walk(n.value)):
+                return "comm"
+        if isinstance(n, ast.Call) and isinstance(n.func, ast.Attribute) and n.func.attr == "append" and src(n.func.value) == name \
+                and any(isinstance(c, ast.Call) and isinstance(c.func, ast.Attribute) and c.func.attr == "Sub" for a in n.args for c in ast.walk(a)):
+            return "comm"
+    return None
+
+
+def coords_follow_comms(chk, mod):
+    """A2-coords-follow-communicators: a LayoutHandler is given a list of communicators and the list of this process's coordinates;
+    Layout takes the block of axis k from coords[k] and the exchanges along axis k run on comms[k], so coords[k] must be the
+    coordinate on the very cartesian direction comms[k] belongs to.  The two lists are read back to how they were selected from the
+    per-direction lists of the topology and the two selections are compared with each other."""
+    from .C01 import call_args
+    rule = "A2-coords-follow-communicators"
+    rel = mod.rel
+    if not mod.has("LayoutHandler.__init__"):
+        chk.ob(rule, mod.cls(CLS), "LayoutHandler(comms, coords, ...)", None, "LayoutHandler.__init__ not found", file=rel, func=CLS)
+        return
+    ctor = mod.func("LayoutHandler.__init__")
+    n_sites = 0
+    for q in ("LayoutSwapper.__init__", "getLayoutHandler"):
+        if not mod.has(q):
+            continue
+        fn = mod.func(q)
+        for c in [c for c in ast.walk(fn) if isinstance(c, ast.Call) and src(c.func) == "LayoutHandler"]:
+            am = call_args(c, ctor)
+            if am is None or "comms" not in am or "coords" not in am:
+                chk.ob(rule, c, src(c)[:90], None, "the arguments of the constructor call could not be matched with (comms, coords, ...)",
+                       file=rel, func=q)
+                continue
+            n_sites += 1
+            st = c
+            while not isinstance(st, ast.stmt):
+                st = parent(st)
+            dc, dr = _seq_desc(fn, am["comms"], st), _seq_desc(fn, am["coords"], st)
+            ok, bad, why = None, None, ""
+            if dc is None or dr is None or dc[0] == "built" or dr[0] == "built":
+                why = f"how `{src(am['comms'] if dc is None or dc[0] == 'built' else am['coords'])[:50]}` is put together was not followed"
+            elif _base_role(fn, dc[1]) != "comm" or _base_role(fn, dr[1]) != "coord":
+                why = (f"`{dc[1]}` / `{dr[1]}` were not recognised as the sub-communicators (topology.Sub) and the coordinates (topology.Get_coords) "
+                       "of one cartesian topology")
+            elif dc[0] == "whole" and dr[0] == "whole":
+                ok = True
+            elif dc[0] == "sel" and dr[0] == "sel":
+                if dc[2] == dr[2]:
+                    ok = True
+                    if dc[2][0] == "loop":
+                        # same loop, same index expression: the index must not be rebound between the two appends
+                        a, b = sorted((dc[4], dr[4]), key=lambda n: n.lineno)
+                        lp = [x for x in ast.walk(fn) if isinstance(x, ast.For) and id(x) == dc[2][1]]
+                        between = [x for x in (lp[0].body if lp else []) if a.lineno < x.lineno < b.lineno]
+                        names = {n.id for n in ast.walk(ast.parse(dc[3], mode="eval")) if isinstance(n, ast.Name)}
+                        if any(isinstance(n, ast.Name) and n.id in names and isinstance(n.ctx, ast.Store) for x in between for n in ast.walk(x)):
+                            ok, why = None, f"`{dc[3]}` is rebound between the two appends"
+                elif dc[2][0] == dr[2][0] == "loop" and dc[2][1] == dr[2][1] and _distinct_names(fn, dc[3], dr[3], dc[4]):
+                    bad = (f"in one iteration the communicator is taken at `{dc[1]}[{dc[3]}]` but the coordinate at `{dr[1]}[{dr[3]}]`: the handler "
+                           "distributes axis k over the communicator comms[k] but takes this process's block from the coordinate on another "
+                           "direction - blocks are not owned in the rank order of the communicator the exchanges run on")
+                else:
+                    why = f"the communicators are selected by `{dc[3]}`, the coordinates by `{dr[3]}`: whether these are the same axes was not established"
+            elif dc[0] == "sel" and dr[0] in ("prefix", "whole"):
+                bad = (f"the communicators handed to the handler are `{dc[1]}[a]` for the chosen cartesian directions a (`{dc[3]}`), but the coordinates are "
+                       f"`{src(am['coords']) if not isinstance(am['coords'], ast.Name) else dr[1] + ('[' + dr[2] + ']' if dr[0] == 'prefix' else '')}`, "
+                       "the LEADING entries of the coordinate list: whenever a chosen direction is not the leading one (e.g. process counts "
+                       "[[p0, p1], p0, p1]: the p1 handler uses direction 1) its layouts take their block from the coordinate on the wrong direction - "
+                       "blocks are no longer owned in the rank order of the communicator used for the exchanges (some owned by nobody, others twice, "
+                       "or an IndexError in Layout)")
+            elif dr[0] == "sel" and dc[0] in ("prefix", "whole"):
+                bad = (f"the coordinates handed to the handler are `{dr[1]}[a]` for the chosen cartesian directions a (`{dr[3]}`), but the communicators "
+                       "are the leading entries of the communicator list: the exchanges of axis k do not run on the direction the blocks are "
+                       "assigned by")
+            elif dc[0] == "prefix" and dr[0] == "prefix":
+                ok = True if dc[2] == dr[2] else None
+                why = "" if ok else f"different slices `{dc[2]}` / `{dr[2]}` of the two lists"
+            else:
+                why = f"selection forms {dc[0]} / {dr[0]}"
+            o = chk.pat(rule, c, src(c)[:90], ok,
+                        "coords[k] is the coordinate on the cartesian direction of comms[k] (both lists are selected by the same axes)", bad,
+                        file=rel, func=q)
+            if not ok and not bad:
+                o.msg = "cannot decide: " + why
+    if n_sites < 2:
+        chk.ob(rule, mod.cls(CLS), "LayoutHandler(...) constructions", None,
+               f"only {n_sites} construction(s) of a LayoutHandler from a topology found (LayoutSwapper.__init__ has two, getLayoutHandler one)",
+               file=rel, func=CLS)
 
 
 def getaxes_definition(chk, mod):
@@ -1544,7 +1899,44 @@ def getaxes_definition(chk, mod):
                     if m_:
                         cand = m_.groups()[-1]
                         break
-            if cand is None:
+            shared = None
+            if cand is None and sdef is not None:
+                # the positions of the scattered handler's communicators that the gathered handler also has are collected in a set; the
+                # result is the first position that is not in it
+                for pat_ in (r"\[(\w+)for\1inrange\(len\(handlerS\.communicators\)\)if\1notin(\w+)\]\[0\]",
+                             r"next\(\(?(\w+)for\1inrange\(len\(handlerS\.communicators\)\)if\1notin(\w+)\)?\)",
+                             r"min\(set\(range\(len\(handlerS\.communicators\)\)\)-(\w+)\)",
+                             r"\[(\w+)for\1,(?:\w+)inenumerate\(handlerS\.communicators\)if\1notin(\w+)\]\[0\]"):
+                    m_ = re.fullmatch(pat_, t)
+                    if m_:
+                        shared = m_.groups()[-1]
+                        break
+            if shared is not None:
+                ok1 = any(contains(ga, frag, vars=("c", "i")) for frag in (f"""
+{shared} = set()
+for c in handlerG.communicators:
+    if c in handlerS.communicators:
+        {shared}.add(handlerS.communicators.index(c))
+""", f"""
+{shared} = set()
+for c in handlerG.communicators:
+    if c in handlerS.communicators:
+        i = handlerS.communicators.index(c)
+        {shared}.add(i)
+""", f"{shared} = {{handlerS.communicators.index(c) for c in handlerG.communicators if c in handlerS.communicators}}",
+                    f"{shared} = set(handlerS.communicators.index(c) for c in handlerG.communicators if c in handlerS.communicators)",
+                    f"{shared} = {{i for i, c in enumerate(handlerS.communicators) if c in handlerG.communicators}}",
+                    f"{shared} = set(i for i, c in enumerate(handlerS.communicators) if c in handlerG.communicators)"))
+                hS = xsrc(ast.parse("handlerS", mode="eval").body, env).replace(" ", "")
+                hG = xsrc(ast.parse("handlerG", mode="eval").body, env).replace(" ", "")
+                if not ok1:
+                    und.append(f"construction of the set `{shared}` of shared communicator positions")
+                if hS != "self._managers[self._handlers[layout_scattered.name]]" or hG != "self._managers[self._handlers[layout_gathered.name]]":
+                    if hS == "self._managers[self._handlers[layout_gathered.name]]" and hG == "self._managers[self._handlers[layout_scattered.name]]":
+                        bad = bad or "the roles of the two handlers are exchanged: the candidates are the GATHERED handler's communicators"
+                    else:
+                        und.append("the two handlers")
+            elif cand is None:
                 und.append(f"second result `{src(sdef)[:70] if sdef is not None else sn}` (expected: the first position of the candidate list that is not None)")
             else:
                 # (1) the candidate list
